@@ -918,8 +918,9 @@ class AT:
                 else:
                     raise Top(f"index {it!r} on a concrete axis")
             else:
-                if isinstance(it, slice) and it.start in (None, 0) and it.stop is None and it.step in (None, 1):
-                    new_axes.append(a)
+                if isinstance(it, slice) and it.start in (None, 0) and it.step in (None, 1) and \
+                        (it.stop is None or (isinstance(it.stop, SymDim) and it.stop.name == a)):
+                    new_axes.append(a)            # the whole axis ([:], [0:], [0:n] with n its own extent)
                 elif isinstance(it, slice) and a in self.deps() and all(isinstance(z, (int, type(None))) for z in (it.start, it.stop, it.step)):
                     # fixed positions of an axis that enumerates the rows of a batch / the points of a grid axis: the result
                     # is about particular rows, whatever the batch holds
